@@ -44,6 +44,26 @@ func c17Run(x *core.Ctx) {
 	}
 	r := x.Rand(uint64(x.Shard))
 	rn := &model.Renderer{}
+	if x.Shard == 3 {
+		// definitions that make one BIG source (more tokens than any per-source budget someone might introduce: ~2^16 and
+		// a bit) load the same from one file and from three
+		var big []*model.Item
+		nt := 440 + r.Intn(60)
+		for k := 0; k < nt; k++ {
+			it := &model.Item{Kind: "type", Name: fmt.Sprintf("Big%d", k)}
+			for f := 0; f < 50; f++ {
+				it.Fields = append(it.Fields, &model.FieldDef{Name: fmt.Sprintf("f%d", f), Type: &model.Type{Name: "Int"}})
+			}
+			it.Fields = append(it.Fields, &model.FieldDef{Name: "next", Type: &model.Type{Name: fmt.Sprintf("Big%d", (k+1)%nt)}})
+			big = append(big, it)
+		}
+		big = append(big, &model.Item{Kind: "type", Name: "Query", Fields: []*model.FieldDef{{Name: "big", Type: &model.Type{Name: "Big0"}}}})
+		third := len(big) / 3
+		bc := core.NewCase("arrangement", "base", rn.RenderSDoc(&model.SDoc{Items: big}), "fault", "", "involved", "", "pattern", "big-one-file-vs-three", "n", "3",
+			"src0", rn.RenderSDoc(&model.SDoc{Items: big[2*third:]}), "src1", rn.RenderSDoc(&model.SDoc{Items: big[:third]}), "src2", rn.RenderSDoc(&model.SDoc{Items: big[third : 2*third]}))
+		x.Do(bc, func() { c17Check(x, bc) })
+		x.Count("big_source_arrangements")
+	}
 	for i := 0; i < n; i++ {
 		items := tsys.Schema(r, &tsys.GenOpts{Descs: i%4 == 0, Extensions: true, ExtOnly: i%5 == 0, Small: i%3 == 0})
 		code, involved := "", ""
